@@ -37,7 +37,7 @@ T = {
          "Races inside user functions are out of scope; the Go memory model's channel edges are the trusted base."),
  "C13": ("Every template variant parses and type-checks under adversarial import aliases; every template field path exists; no output write before re-parse and format succeeded; compile errors abort generation; constant accessors with panicking preconditions are guarded; errors reach the exit status.",
          "User identifiers shadowing package names, directives nested in task literals and printing of arbitrary user types are out of static reach (DESIGN §5 C13)."),
- "C14": ("All validators run on every path before scheduling/generation and any diagnostic aborts; duplicate-provider results are tested; diagnostics are positioned; Slice/Map assignability is tested in the direction of the generated call; the cycle search keeps the memo discipline of a sound memoised DFS (post-order memo, or path test first under the memo's key); the generator's synthetic sentinel types (Invoke / Predicate families) are structurally disjoint and numbered apart, so no well-formed flow is rejected through a collision of the generator's own keys.",
+ "C14": ("All validators run on every path before scheduling/generation and any diagnostic aborts; duplicate-provider results are tested; diagnostics are positioned; Slice/Map assignability is tested in the direction of the generated call; the cycle search keeps the memo discipline of a sound memoised DFS (post-order memo, or path test first under the memo's key); the generator's synthetic sentinel types (Invoke / Predicate families) are structurally disjoint and numbered apart; the validators' memo keys are total over the nodes searched; user types are classified by their underlying type (named map/function/pointer types were refused on the pinned tree: finding F9, repaired); every flow of the regenerated corpora (well-formed by construction) is accepted.",
          "Completeness of the BFS (every missing provider / unused input reported) and acceptance of every well-formed flow beyond these premises is NOT decided: a property of graph algorithms over all graphs."),
  "C15": ("Every ast.Expr-typed template value is printed through the hoisting printer (raw printer only in the prologue); the printer records before naming; prologue sorted by position and written before the staged body.",
          "Evaluation order among the hoisted definitions relies on Go's statement order; user expressions that are the literal nil or synthetic (auto-instrument names) are printed in place by design."),
@@ -49,7 +49,7 @@ T = {
          "-auto-instrument name synthesis and emitters that themselves panic are not covered."),
  "C19": ("Conservation law pending = |ready| + waiting + ongoing by effect summary of every path through every select arm; State literal fed by the right counters; Emit only inside the loop body; executing <= Concurrency through the dispatch gate; parameter plumbing.",
          "'Pending <= submitted' and 'Waiting <= submitted-with-deps' follow from conservation and non-negativity but are not separately discharged."),
- "C20": ("The source-map flag guards only statements that emit comment tokens and both modes share one template set; modifier templates satisfy the same structural obligations as their base siblings and type-check.",
+ "C20": ("The source-map flag guards only statements that emit comment tokens and both modes share one template set; modifier templates satisfy the same structural obligations as their base siblings and type-check; on a regenerated modifier-mode corpus inside the supported subset every generated flow function meets the base-mode obligations (dependencies, wiring, panic guard, error pass-through, ctx, Wait discipline), every directive argument reaches its hoisted name unchanged through call site, helper and prologue, the output type-checks and adds nothing but the generated functions; generated package-level names are injective in (file, line, column).",
          "Behavioural equality of modifier and base output is NOT decided."),
 }
 PENDING = "no rule of the static rule set for this property is implemented yet in this revision of /verif (see DESIGN.md §0); it is not claimed until its check exists"
